@@ -12,7 +12,7 @@ RULE = ("pool of random programs in which every handler kind (context function b
         "invocation k (exhaustive) and each fault kind in {Err, panic}: the faulted run (result, call-log prefix of exactly k entries, bindings made "
         "before k), then snapshot of the same context, a canary evaluation on the same context, on a fresh context, and periodically on another "
         "thread plus re-registration of every operator kind. distinct class = (fault kind, kind of the handler that was hit, invocation index k)")
-CANARY = "t(901) lop gt(902) rop (pre r1) pst ; u sop t(903) ; [u, a, min(3, 4)]"
+CANARY = "t(901) lop gt(902) rop (pre r1) pst ; u sop sh(903) ; [u, a, min(3, 4)]"
 
 
 def canary_tree():
@@ -42,7 +42,7 @@ def run_shard(desc):
                 threaded = (cid % 7 == 0)
                 seq = [
                     {"op": "ctx", "id": cid, "vars": gen.ORDER_VARS, "fns": gen.ORDER_FNS},
-                    {"op": "exec", "ctx": cid, "text": text, "fault": {"k": k, "kind": fk}},
+                    {"op": "exec", "ctx": cid, "text": text, "fault": {"k": k, "kind": fk, "variant": evalcheck.ERR_VARIANTS[(k + cid) % len(evalcheck.ERR_VARIANTS)]}},
                     {"op": "snapshot", "ctx": cid},
                     {"op": "exec", "ctx": cid, "text": CANARY},
                 ]
